@@ -123,7 +123,7 @@ static ldb_repair_t *setup(size_t nt, size_t nm) {
   ldb_repair_t *rep = malloc(sizeof(*rep));
   size_t i;
   __CPROVER_assume(rep != NULL);
-  g_rep = rep;
+  g_rep = rep; g_pin_buf = NULL;
   g_dbname[0] = 'd'; g_dbname[1] = 0; rep->dbname = g_dbname;
   g_cmp_name[0] = 'c'; g_cmp_name[1] = 0; g_ucmp.name = g_cmp_name; rep->icmp.user_comparator = &g_ucmp;
   for (i = 0; i < REP_MAXT; i++) g_items[i] = &g_tab[i];
